@@ -38,7 +38,7 @@ def handle (line : String) : String :=
     | "engine" => handleEngine args
     | "cia-open" | "cia-ops" | "ticket-walk" | "cdn-key" => handleCia cmd args
     | "ncch-open" | "ncch-geom" | "ncch-ops" => handleNcch cmd args
-    | "sd-iv" | "sd-key" => handleSd cmd args
+    | "sd-iv" | "sd-key" | "sd-root" => handleSd cmd args
     | "cci-parse" | "cdn-select" | "sdtitle-select" => handleCci cmd args
     | "romfs-parse" | "romfs-lookup" | "romfs-rep" => handleRomfs cmd args
     | "tmd-load" | "tmd-roundtrip" | "tmd-ser" => handleTmd cmd args
